@@ -52,6 +52,14 @@ def _class_state_writes(ss):
                         name = how[6:].split(".", 1)[1].split("[")[0]
                 if t == "self.__class__" and w.how.startswith("store self.__class__."):
                     name = w.how[len("store self.__class__."):]
+                if name is None and t in ("self.__class__", "cls", "type(self)"):
+                    # the class attribute reached through a local alias (`cache = self.__class__.cache; cache[k] = v`):
+                    # read the attribute from the expanded receiver
+                    from ..core.defuse import flow_of
+                    et = txt(flow_of(ss, ff).expand(w.receiver))
+                    for pre in ("self.__class__.", "cls.", "type(self)."):
+                        if et.startswith(pre):
+                            name = et[len(pre):].split("[")[0].split(".")[0]
                 if name and not t.startswith("self._") and not t.startswith("self.") or (name and t.startswith("self.__class__")):
                     out.setdefault(name.split(".")[0], []).append((ff, w))
     return out
@@ -245,6 +253,23 @@ def c20_5(ctx, ss):
             ctx.violation("C20.5", ckey(ff, None, "global-stmt"), where(ff, g), f"{ff.qualname} declares `global {', '.join(g.names)}`")
     ctx.count("write_sites", n)
     ctx.holds("C20.5", "modeling :: no-other-module-state", "src/decaylanguage/modeling", f"{n} write sites in modeling/ inspected; only the five tracked class attributes are process-wide", n)
+    # a mutable default argument lives as long as the process: it is state kept between calls
+    for k, ff in ef.cg.funcs.items():
+        if not ff.module.startswith("modeling/"):
+            continue
+        a_ = ff.node.args
+        for d_ in list(a_.defaults) + [x for x in a_.kw_defaults if x is not None]:
+            if isinstance(d_, (ast.Dict, ast.List, ast.Set, ast.ListComp, ast.DictComp, ast.SetComp)) or \
+                    (isinstance(d_, ast.Call) and txt(d_.func) in ("dict", "list", "set", "defaultdict", "collections.defaultdict", "OrderedDict")):
+                names_ = [x.arg for x in a_.args][len(a_.args) - len(a_.defaults):] + [x.arg for x, dv in zip(a_.kwonlyargs, a_.kw_defaults) if dv is not None]
+                allds = list(a_.defaults) + [x for x in a_.kw_defaults if x is not None]
+                pname = names_[allds.index(d_)] if d_ in allds and allds.index(d_) < len(names_) else None
+                if pname is not None and pname in ef.sum[k].mutated_params:
+                    ctx.violation("C20.5", ckey(ff, None, "mutable-default"), where(ff, d_),
+                                  f"{ff.qualname} writes into its mutable default `{pname}={txt(d_)}`: the object is shared by all calls of the process, "
+                                  "so what a read returns depends on what was read or converted earlier")
+                else:
+                    ctx.holds("C20.5", ckey(ff, None, f"mutable-default:{pname}"), where(ff, d_), f"{ff.qualname}: the default `{txt(d_)}` is never written", 1)
     # no cache decorators on reader / generator functions
     for k, ff in ef.cg.funcs.items():
         if ff.module.startswith("modeling/") and set(ff.decorators) & {"lru_cache", "cache", "cached_property"}:
